@@ -246,6 +246,47 @@ def run(prog, R):
         R.ob("C10.4-float-digit-string", "FloatNumber::value == parse::<f64>(text-without-underscores).ok()", okf, fv.at, f"value {sorted(rets)[:1]}; calls {cals}; float arithmetic {arith}")
     else:
         R.ob("ANCHOR", "FloatNumber::value", False)
+    # the digit string handed to parse::<f64> is cut from the literal by FloatNumber::split_into_parts.  The lexer
+    # (Cursor::number) takes `e`/`E` after the significand as the exponent marker whatever precedes it (`1e3`, `1.e3`,
+    # `1_e3` are one Float token), so in the accessor the decision "this letter starts the exponent, not the suffix"
+    # must be a function of the letters the forward scans find and of nothing else: every branch condition is the
+    # discriminant of a scan result or a comparison of the found letter with a constant, the scan predicates are
+    # letter tests, and both spellings of the marker are compared.
+    import re as _re
+    fsp = prog.body(TE + "FloatNumber::split_into_parts")
+    if fsp:
+        SCAN = {"Eq", "Ne", "Not", "discr", "find", "position", "find_map", "char_indices", "chars", "text", "by_ref", "eq_ignore_ascii_case", "to_ascii_lowercase",
+                "to_ascii_uppercase", "is_ascii_alphabetic", "is_alphabetic", "next", "peekable", "peek", "as_str", "syntax", "deref", "as_ref", "matches"}
+        se_ = SymExec(prog, fsp)
+        fps = [p for p in se_.paths() if "__diverged__" not in p.env]
+        alien, consts_ = set(), set()
+        for p in fps:
+            for c in p.conds:
+                if c[0] != "switch":
+                    continue
+                s_ = show(deep_strip(c[1]))
+                alien |= set(_re.findall(r"([A-Za-z_][A-Za-z_0-9]*)\(", s_)) - SCAN
+                m_ = _re.match(r"^(?:Eq|Ne)\(.*\.1, (\d+)\)$", s_)
+                if m_:
+                    consts_.add(int(m_.group(1)))
+                elif s_.endswith(".1") and not s_.startswith("discr("):
+                    # `match c { 'e' | 'E' => .. }`: a switch on the found letter itself
+                    v_ = c[2][1]
+                    consts_ |= set(v_ if isinstance(v_, (tuple, list)) else (v_,))
+        clos = {}
+        for k_ in prog.bodies:
+            if k_.startswith(TE + "FloatNumber::split_into_parts::{closure"):
+                cb_ = prog.body(k_)
+                clos[k_.split("::")[-1]] = sorted(set((cb_.callee_of(t) or "?").split("::")[-1] for _, t in cb_.calls()))
+        folded = any(f in show(deep_strip(c[1])) for p in fps for c in p.conds if c[0] == "switch" for f in ("eq_ignore_ascii_case", "to_ascii_lowercase", "to_ascii_uppercase"))
+        badcl = {k_: v for k_, v in clos.items() if not set(v) <= {"is_ascii_alphabetic", "is_alphabetic"} or not v}
+        okx = bool(fps) and not se_.truncated and not alien and not badcl and (folded or {101, 69} <= consts_)
+        R.ob("C10.4-float-exponent-marker", "FloatNumber::split_into_parts: whether a letter is the exponent marker depends only on the letters found by the forward scans (as in the lexer)", okx, fsp.at,
+             f"{len(fps)} paths; letters compared {sorted(chr(c) for c in consts_)}; scan predicates {clos}" if okx else
+             f"branch conditions also depend on {sorted(alien)}; letters compared {sorted(chr(c) for c in consts_ if c < 128)}; scan predicates deviating {badcl}: the lexer makes `e`/`E` after the significand the exponent whatever precedes it, "
+             f"the accessor must cut the digit string at the same place or the value parsed from it differs from the literal")
+    else:
+        R.ob("ANCHOR", "FloatNumber::split_into_parts", False)
     # no unchecked narrowing `as` cast on a literal's value in the translator (shared with C09.2)
     order = {"u8": 8, "u16": 16, "u32": 32, "u64": 64, "usize": 64, "u128": 128, "i8": 8, "i16": 16, "i32": 32, "i64": 64, "isize": 64, "i128": 128}
     narrow = []
